@@ -44,3 +44,15 @@ LEVEL_NOTE = ("Trusted: CBMC 6.11 + dfcc instrumentation; model predicate and MP
               "parallel.c) call the functions at the documented points with legal timestamps; thread interleavings not modelled.")
 TECHNIQUE = "CBMC code contracts (goto-instrument --dfcc --enforce-contract / --replace-call-with-contract) on the real termination.c"
 DESIGN_REF = "DESIGN.md §4 C07"
+
+# ---- call sites in process.c: process_msg reports every processed event and every rollback to the termination module
+import importlib.util as _ilu, os as _os
+_sp = _ilu.spec_from_file_location("spec_C06_for_C07", _os.path.join(_os.path.dirname(__file__), "C06.py"))
+_m = _ilu.module_from_spec(_sp); _m.H = H; _sp.loader.exec_module(_m)
+HARNESSES = HARNESSES + [
+    _m.P(f"C07.process_msg_calls.word{w}", "h_process_msg", "process_msg calls termination_on_msg_process exactly once per processed (not cancelled) event with its timestamp, and termination_on_lp_rollback exactly once per rollback with the time of the straggler / cancelled event (bounded history; do_rollback by contract)",
+         4, ("quick", "thorough"), canaries=1 if w == 1 else 2, funcs=["process_msg"], replace=("do_rollback",), defs_extra=("PM_MODULAR", f"PM_CASE={w}"))
+    for w in (0, 1, 3)]
+for _h in HARNESSES:
+    if _h["name"].startswith("C07.process_msg_calls"):
+        _h["kind"] = "bounded"
